@@ -9,6 +9,11 @@ import BearVerif.Lemmas.Decor
   itself defines decorated as if by hand, recursively for classes nested in it; inherited members
   and referenced classes untouched"). Object identity is the `oid`; allocation is the threaded
   counter. `Klass.wf` is the Python fact that dictionary keys are unique, at every depth.
+
+  Decoration may RAISE (`Ann.failing`: a hint rejected at decoration time). Every function returns a
+  `Res` = (value, state = allocation counter + warnings issued, exception propagating?). `guard` is
+  `_beartype_object_nonfatal` (configurations with `warning_cls_on_decorator_exception`, `conf.warn`):
+  the exception of ONE object becomes one warning and the object is returned as it was.
 -/
 namespace BearVerif.Decor
 
@@ -17,123 +22,234 @@ namespace BearVerif.Decor
     decorator computes exactly the member-wise decoration of the specification: own functions,
     classmethods, staticmethods and properties as if decorated by hand, classes nested in it
     recursively, referenced classes / other attributes / inherited members untouched, the class
-    marked — including which new objects are allocated and in which order. -/
-theorem C13_class_eq_members (env : Env) (conf : Conf) (k : Klass) (n : Nat) (hwf : k.wf) :
-    decorClass env conf k n = specClass env conf k n :=
-  decorClass_eq_spec env conf k n hwf
+    marked — including which new objects are allocated and in which order, how many warnings are
+    issued, and, when the decoration of a member raises, that the SAME exception propagates at the
+    SAME member on both routes leaving the SAME half-decorated, unmarked class. -/
+theorem C13_class_eq_members (env : Env) (conf : Conf) (k : Klass) (st : St) (hwf : k.wf) :
+    decorClass env conf k st = specClass env conf k st :=
+  decorClass_eq_spec env conf k st hwf
 
 /-- … the same statement for what is stored under each attribute name: the decorated class maps
     a name to the hand-decorated value of that name (so the `setattr`-by-name of the loop never
     hits another attribute). -/
 theorem C13_class_eq_members_lookup (env : Env) (conf : Conf) (oid : Nat) (qual : List String)
-    (dict inh : Members) (n : Nat) (hwf : (Klass.mk oid qual false dict inh).wf) :
-    (decorClass env conf (.mk oid qual false dict inh) n).1.dict = (specMembers env conf qual dict n).1 := by
-  rw [C13_class_eq_members env conf _ n hwf]; simp [specClass, Klass.dict]
+    (dict inh : Members) (st : St) (hwf : (Klass.mk oid qual false dict inh).wf) :
+    (decorClass env conf (.mk oid qual false dict inh) st).val.dict = (specMembers env conf qual dict st).val := by
+  rw [C13_class_eq_members env conf _ st hwf]; simp [specClass, Klass.dict]
+
+/-- **A configuration with `warning_cls_on_decorator_exception`: nothing propagates.** Decorating
+    any class (directly through `beartype_type` or through the public decorator) or any member
+    never raises, and the class ends up marked as decorated. -/
+theorem C13_warn_never_raises (env : Env) (conf : Conf) (k : Klass) (m : Member) (st : St)
+    (hw : conf.warn = true) :
+    (decorClass env conf k st).raised = false ∧ (decorClass env conf k st).val.beartyped = true ∧
+    (beartypeClass env conf k st).raised = false ∧ (decorObject env conf m st).raised = false ∧
+    (beartype env conf m st).raised = false := by
+  have h := decorClass_warn env conf k st hw
+  refine ⟨h, (decorClass_fields env conf k st).2.2.2.1 h, ?_, decorObject_warn env conf m st hw, ?_⟩
+  · unfold beartypeClass; split
+    · rfl
+    · exact guard_warn _ _ _ hw
+  · unfold beartype; split
+    · rfl
+    · exact decorObject_warn env conf m st hw
+
+/-- **… a member whose decoration raises is left as it was, with exactly one warning.** For a
+    function, classmethod, staticmethod or property decorated by hand (`beartype(conf=…)(member)`)
+    or as a member of a class: when `beartype_nontype` raises on it (`failsLeaf`: a function inside
+    has a hint rejected at decoration time — for a classmethod / staticmethod the wrappee is
+    guarded on its own, so the descriptor is rebuilt around the untouched function), the result is
+    the very same object, nothing is allocated, one warning is issued. Without the warning option
+    the exception propagates, and again nothing was changed. -/
+theorem C13_failing_member_left_alone (env : Env) (conf : Conf) (m : Member) (st : St)
+    (h : m.failsLeaf env conf = true) :
+    (conf.warn = true → decorObject env conf m st = ⟨m, ⟨st.next, st.warns + 1⟩, false⟩) ∧
+    (conf.warn = false → decorObject env conf m st = ⟨m, st, true⟩) := by
+  have hk : ∀ k, m ≠ .klass k := by
+    intro k e; subst e; simp [Member.failsLeaf] at h
+  rw [decorObject_leaf env conf m st hk]
+  constructor
+  · intro hw; exact decorLeafObj_of_fails_warn env conf m st hw h
+  · intro hw; simp [decorLeafObj, decorLeaf_of_fails env conf m st h, guard, hw]
+
+/-- **… and every other member is decorated exactly as if the failing one were absent.** Under the
+    warning option, for a class dictionary `pre ++ [(nm, m)] ++ rest` whose member `m` cannot be
+    decorated: the members before it and the members after it are decorated to exactly the values
+    (the very same wrappers and rebuilt descriptors, oid for oid) that the dictionary
+    `pre ++ rest` without `m` gives; `m` itself stays; the only other difference is one more warning. -/
+theorem C13_failing_member_as_if_absent (env : Env) (conf : Conf) (qual : List String)
+    (pre rest : Members) (nm : String) (m : Member) (st : St)
+    (hw : conf.warn = true) (h : m.failsLeaf env conf = true) :
+    let a := specMembers env conf qual pre st
+    let b := specMembers env conf qual rest a.st
+    specMembers env conf qual (pre.append rest) st = ⟨a.val.append b.val, b.st, false⟩ ∧
+    specMembers env conf qual (pre.append (.cons nm m rest)) st =
+      ⟨a.val.append (.cons nm m b.val), ⟨b.st.next, b.st.warns + 1⟩, false⟩ := by
+  intro a b
+  have ha : a.raised = false := specMembers_warn env conf qual hw pre st
+  have hb : b.raised = false := specMembers_warn env conf qual hw rest a.st
+  have hk : ∀ k, m ≠ .klass k := by
+    intro k e; subst e; simp [Member.failsLeaf] at h
+  constructor
+  · rw [specMembers_append]
+    simp only [show (specMembers env conf qual pre st).raised = false from ha, Bool.false_eq_true, ↓reduceIte]
+    show _ = (⟨a.val.append b.val, b.st, false⟩ : Res Members)
+    rw [← hb]
+  · rw [specMembers_append]
+    simp only [show (specMembers env conf qual pre st).raised = false from ha, Bool.false_eq_true, ↓reduceIte]
+    have hm : specMember env conf qual m a.st = ⟨m, ⟨a.st.next, a.st.warns + 1⟩, false⟩ := by
+      rw [specMember_leaf env conf qual m a.st hk]
+      exact decorLeafObj_of_fails_warn env conf m a.st hw h
+    have hs := specMembers_shift env conf qual rest a.st 1
+    simp only [specMembers]
+    rw [show specMember env conf qual m (specMembers env conf qual pre st).st = _ from hm]
+    simp only [Bool.false_eq_true, ↓reduceIte]
+    rw [hs]
+    simp only [Res.shift_val, Res.shift_st, Res.shift_raised]
+    rw [show (specMembers env conf qual rest a.st).raised = false from hb]
 
 /-- **Descriptor kind, name, docstring, signature are kept** — for the whole class at every
     nesting depth: attribute names and their order, the kind of every attribute (function /
     classmethod / staticmethod / property / class / other), the name, docstring and signature of
-    every function inside, property docstrings, qualified names, and the inherited part. -/
-theorem C13_kind_preserved (env : Env) (conf : Conf) (k : Klass) (n : Nat) (hwf : k.wf) :
-    (decorClass env conf k n).1.shape = k.shape := by
-  rw [C13_class_eq_members env conf k n hwf]; exact specClass_shape env conf k n
+    every function inside, property docstrings, qualified names, and the inherited part — also for
+    the half-decorated class an exception leaves behind. -/
+theorem C13_kind_preserved (env : Env) (conf : Conf) (k : Klass) (st : St) (hwf : k.wf) :
+    (decorClass env conf k st).val.shape = k.shape := by
+  rw [C13_class_eq_members env conf k st hwf]; exact specClass_shape env conf k st
 
 /-- … and for a member decorated by hand (`beartype(conf=…)(member)`). -/
-theorem C13_kind_preserved_member (env : Env) (conf : Conf) (m : Member) (n : Nat) (hwf : m.wf) :
-    (beartype env conf m n).1.shape = m.shape := by
+theorem C13_kind_preserved_member (env : Env) (conf : Conf) (m : Member) (st : St) (hwf : m.wf) :
+    (beartype env conf m st).val.shape = m.shape := by
   unfold beartype
   split
   · rfl
   · cases m with
     | klass k =>
       simp only [Member.wf] at hwf
-      simp only [decorObject, Member.shape]
-      exact C13_kind_preserved env conf k n hwf
+      simp only [decorObject]
+      rw [guard_klass_shape]
+      simp only [Member.shape]
+      exact C13_kind_preserved env conf k st hwf
     | other o => rfl
-    | func f => simp only [decorObject]; exact decorLeaf_shape ..
-    | cmeth o f => simp only [decorObject]; exact decorLeaf_shape ..
-    | smeth o f => simp only [decorObject]; exact decorLeaf_shape ..
-    | prop o doc g s d => simp only [decorObject]; exact decorLeaf_shape ..
+    | func f => simp only [decorObject]; exact decorLeafObj_shape ..
+    | cmeth o f => simp only [decorObject]; exact decorLeafObj_shape ..
+    | smeth o f => simp only [decorObject]; exact decorLeafObj_shape ..
+    | prop o doc g s d => simp only [decorObject]; exact decorLeafObj_shape ..
 
 /-- **The original is reachable as `__wrapped__`.** Decorating a function returns either the very
-    object passed in (flagged `__no_type_check__` under strategy O0, nothing allocated) or a NEW
-    object (its oid is the one allocated now) that carries the wrapper marker, the name, docstring,
-    signature and annotations of the original, and `__wrapped__` = the original. -/
-theorem C13_wrapped_original (env : Env) (conf : Conf) (f : Func) (n : Nat) :
-    (decorFunc env conf f n = (if conf.o0 then f.setNtc else f, n) ∧ (decorFunc env conf f n).1.oid = f.oid) ∨
-    ((decorFunc env conf f n).2 = n + 1 ∧ (decorFunc env conf f n).1.oid = n ∧
-      (decorFunc env conf f n).1.marker = true ∧ (decorFunc env conf f n).1.wrapped = some f ∧
-      (decorFunc env conf f n).1.facts = f.facts ∧ (decorFunc env conf f n).1.ann = f.ann ∧ conf.o0 = false) := by
+    object passed in (flagged `__no_type_check__` under strategy O0, nothing allocated; this
+    includes the case in which the decoration raises) or a NEW object (its oid is the one allocated
+    now) that carries the wrapper marker, the name, docstring, signature and annotations of the
+    original, and `__wrapped__` = the original. -/
+theorem C13_wrapped_original (env : Env) (conf : Conf) (f : Func) (st : St) :
+    ((decorFunc env conf f st).val = (if conf.o0 then f.setNtc else f) ∧ (decorFunc env conf f st).st = st ∧
+      (decorFunc env conf f st).val.oid = f.oid) ∨
+    ((decorFunc env conf f st).st = ⟨st.next + 1, st.warns⟩ ∧ (decorFunc env conf f st).val.oid = st.next ∧
+      (decorFunc env conf f st).raised = false ∧
+      (decorFunc env conf f st).val.marker = true ∧ (decorFunc env conf f st).val.wrapped = some f ∧
+      (decorFunc env conf f st).val.facts = f.facts ∧ (decorFunc env conf f st).val.ann = f.ann ∧ conf.o0 = false) := by
   func_bash f env conf
 
 /-- allocation only moves forward: every object created by a decoration has an oid ≥ the counter
     it started from, so it is none of the objects that existed before (their oids are below it) -/
-theorem C13_new_objects_fresh (env : Env) (conf : Conf) (f : Func) (n : Nat) (hf : f.oid < n) :
-    (decorFunc env conf f n).1.oid = f.oid ∨ (decorFunc env conf f n).1.oid ≠ f.oid ∧ n ≤ (decorFunc env conf f n).1.oid := by
-  rcases decorFunc_oid env conf f n with ⟨h, _⟩ | ⟨h, _⟩
+theorem C13_new_objects_fresh (env : Env) (conf : Conf) (f : Func) (st : St) (hf : f.oid < st.next) :
+    (decorFunc env conf f st).val.oid = f.oid ∨
+    (decorFunc env conf f st).val.oid ≠ f.oid ∧ st.next ≤ (decorFunc env conf f st).val.oid := by
+  rcases decorFunc_oid env conf f st with ⟨h, _⟩ | ⟨h, _⟩
   · exact Or.inl h
   · right; rw [h]; omega
 
 /-- **Decorating a class returns the same class object**: same oid, same qualified name, the
-    inherited members untouched, and the class is marked as decorated. -/
-theorem C13_same_object (env : Env) (conf : Conf) (k : Klass) (n : Nat) :
-    (decorClass env conf k n).1.oid = k.oid ∧ (decorClass env conf k n).1.qual = k.qual ∧
-    (decorClass env conf k n).1.inherited = k.inherited ∧ (decorClass env conf k n).1.beartyped = true :=
-  decorClass_fields env conf k n
+    inherited members untouched, and the class is marked as decorated exactly when no exception
+    propagated out of its decoration. -/
+theorem C13_same_object (env : Env) (conf : Conf) (k : Klass) (st : St) :
+    (decorClass env conf k st).val.oid = k.oid ∧ (decorClass env conf k st).val.qual = k.qual ∧
+    (decorClass env conf k st).val.inherited = k.inherited ∧
+    ((decorClass env conf k st).raised = false → (decorClass env conf k st).val.beartyped = true) ∧
+    ((decorClass env conf k st).raised = true → (decorClass env conf k st).val.beartyped = false) :=
+  decorClass_fields env conf k st
 
-/-- **Idempotence, classes.** Decorating an already decorated class — with ANY configuration, in
-    any interpreter mode — returns it unchanged (the same value: same class object, every attribute
-    the same object) and allocates nothing. -/
-theorem C13_idempotent (env env' : Env) (conf conf' : Conf) (k : Klass) (n n' : Nat) :
-    decorClass env' conf' (decorClass env conf k n).1 n' = ((decorClass env conf k n).1, n') :=
-  decorClass_of_beartyped env' conf' _ n' (decorClass_fields env conf k n).2.2.2
+/-- **Idempotence, classes.** Decorating an already decorated class (one whose decoration did not
+    raise — always the case under the warning option) — with ANY configuration, in any interpreter
+    mode — returns it unchanged (the same value: same class object, every attribute the same
+    object), allocates nothing, issues no warning and raises nothing. -/
+theorem C13_idempotent (env env' : Env) (conf conf' : Conf) (k : Klass) (st st' : St)
+    (h : (decorClass env conf k st).raised = false) :
+    decorClass env' conf' (decorClass env conf k st).val st' = ⟨(decorClass env conf k st).val, st', false⟩ :=
+  decorClass_of_beartyped env' conf' _ st' ((decorClass_fields env conf k st).2.2.2.1 h)
 
 /-- **Idempotence, functions.** Decorating the result of a decoration returns that result itself
-    (the same object, nothing allocated): a beartype wrapper is never wrapped again, and a function
-    that was left alone is left alone again. -/
-theorem C13_idempotent_func (env : Env) (conf : Conf) (f : Func) (n n' : Nat) :
-    decorFunc env conf (decorFunc env conf f n).1 n' = ((decorFunc env conf f n).1, n') :=
-  decorFunc_idem env conf f n n'
+    (the same object, nothing allocated): a beartype wrapper is never wrapped again, a function
+    that was left alone is left alone again, and a function whose decoration raised makes it raise
+    again. -/
+theorem C13_idempotent_func (env : Env) (conf : Conf) (f : Func) (st st' : St) :
+    decorFunc env conf (decorFunc env conf f st).val st' =
+      ⟨(decorFunc env conf f st).val, st', (decorFunc env conf f st).raised⟩ :=
+  decorFunc_idem env conf f st st'
 
-/-- **Idempotence, any member.** `decor (decor o) = decor o`: for functions and classes the second
-    application returns the SAME object and allocates nothing; for classmethod / staticmethod /
-    property objects the second application rebuilds the descriptor object around the SAME function
-    objects (equal up to the oid of the descriptor object itself). -/
-theorem C13_idempotent_member (env : Env) (conf : Conf) (m : Member) (n n' : Nat) :
-    (decorObject env conf (decorObject env conf m n).1 n').1.core = (decorObject env conf m n).1.core ∧
+/-- **Idempotence, any member.** `decor (decor o) = decor o`: for a function, classmethod,
+    staticmethod or property the second application returns the SAME function objects (for the
+    descriptors: inside a rebuilt descriptor object — equal up to the oid of the descriptor object
+    itself) and raises iff the first did; for a class whose decoration did not raise, and for
+    functions and other objects, the second application returns the SAME object and allocates
+    nothing. -/
+theorem C13_idempotent_member (env : Env) (conf : Conf) (m : Member) (st st' : St) :
+    ((∀ k, m ≠ .klass k) ∨ (decorObject env conf m st).raised = false →
+      (decorObject env conf (decorObject env conf m st).val st').val.core = (decorObject env conf m st).val.core ∧
+      (decorObject env conf (decorObject env conf m st).val st').raised = (decorObject env conf m st).raised) ∧
     ((∃ f, m = .func f) ∨ (∃ k, m = .klass k) ∨ (∃ o, m = .other o) →
-      decorObject env conf (decorObject env conf m n).1 n' = ((decorObject env conf m n).1, n')) := by
-  cases m with
-  | klass k =>
-    have h := C13_idempotent env env conf conf k n n'
-    simp only [decorObject, h, true_and]
-    intro _; trivial
-  | other o => simp [decorObject]
-  | func f =>
-    simp only [decorObject, decorLeaf, decorFunc_idem, true_and]
-    intro _; trivial
-  | cmeth o f =>
-    have := decorLeaf_idem env conf (.cmeth o f) n n'
-    simp only [decorLeaf] at this
-    simp [decorObject, decorLeaf, this]
-  | smeth o f =>
-    have := decorLeaf_idem env conf (.smeth o f) n n'
-    simp only [decorLeaf] at this
-    simp [decorObject, decorLeaf, this]
-  | prop o doc g s d =>
-    have := decorLeaf_idem env conf (.prop o doc g s d) n n'
-    simp only [decorLeaf] at this
-    simp [decorObject, decorLeaf, this]
+      (decorObject env conf m st).raised = false →
+      (decorObject env conf (decorObject env conf m st).val st').val = (decorObject env conf m st).val ∧
+      (decorObject env conf (decorObject env conf m st).val st').st.next = st'.next) := by
+  by_cases hk : ∀ k, m ≠ .klass k
+  · -- function, classmethod, staticmethod, property, other
+    rw [decorObject_leaf env conf m st hk, decorObject_leaf env conf _ st' (decorLeafObj_not_klass env conf m st hk)]
+    refine ⟨fun _ => decorLeafObj_idem env conf m st st', fun hkind hr => ?_⟩
+    rcases hkind with ⟨f, rfl⟩ | ⟨k, rfl⟩ | ⟨o, rfl⟩
+    · exact decorLeafObj_func_idem env conf f st st' hr
+    · exact absurd rfl (hk k)
+    · simp [decorLeafObj, decorLeaf, guard]
+  · -- a class
+    have ⟨k, hm⟩ : ∃ k, m = .klass k := by
+      cases m with
+      | klass k => exact ⟨k, rfl⟩
+      | _ => exact absurd (by intro k e; cases e) hk
+    subst hm
+    have key : (decorObject env conf (.klass k) st).raised = false →
+        decorObject env conf (decorObject env conf (.klass k) st).val st' =
+          ⟨(decorObject env conf (.klass k) st).val, st', false⟩ := by
+      intro hr
+      have hv : (decorObject env conf (.klass k) st).val = .klass (decorClass env conf k st).val := by
+        simp only [decorObject]; exact guard_klass_shape conf (decorClass env conf k st)
+      rw [hv]
+      by_cases hc : (decorClass env conf k st).raised = true
+      · -- the decoration of the class raised: then it also propagates out of `decorObject` (the guard
+        -- only ever swallows under the warning option, under which a class never raises)
+        exfalso
+        by_cases hw : conf.warn = true
+        · have := decorClass_warn env conf k st hw; rw [this] at hc; cases hc
+        · simp [decorObject, guard, hc, hw] at hr
+      · have hc' : (decorClass env conf k st).raised = false := by simpa using hc
+        have h := C13_idempotent env env conf conf k st st' hc'
+        simp only [decorObject, h, guard, Bool.false_and, Bool.false_eq_true, ↓reduceIte]
+    constructor
+    · intro h
+      rcases h with h | h
+      · exact absurd rfl (h k)
+      · rw [key h]; simp [h]
+    · intro _ hr
+      rw [key hr]; exact ⟨rfl, rfl⟩
 
 /-- **No-op cases are identities, functions.** Unannotated, annotated with ignorable hints only,
     `@no_type_check`, already a beartype wrapper, or Python running with `-O`: the function comes
-    back as the same unchanged object and nothing is allocated. Under strategy O0 every function
-    comes back as the same object (flagged `__no_type_check__` in place), nothing allocated. -/
-theorem C13_noop_identity (env : Env) (conf : Conf) (f : Func) (n : Nat) :
+    back as the same unchanged object, nothing is allocated, nothing raises (whatever its hints).
+    Under strategy O0 every function comes back as the same object (flagged `__no_type_check__` in
+    place), nothing allocated, nothing raised. -/
+theorem C13_noop_identity (env : Env) (conf : Conf) (f : Func) (st : St) :
     (conf.o0 = false →
       (env.optimized = true ∨ f.ann = .none ∨ f.ann = .ignorable ∨ f.ntc = true ∨ f.marker = true) →
-      decorFunc env conf f n = (f, n)) ∧
-    (conf.o0 = true → decorFunc env conf f n = (f.setNtc, n)) := by
+      decorFunc env conf f st = ⟨f, st, false⟩) ∧
+    (conf.o0 = true → decorFunc env conf f st = ⟨f.setNtc, st, false⟩) := by
   constructor
   · intro ho h
     revert h ho
@@ -143,27 +259,28 @@ theorem C13_noop_identity (env : Env) (conf : Conf) (f : Func) (n : Nat) :
     func_bash f env conf
 
 /-- **`python -O`: the public decorator is the identity** on every object (function, descriptor,
-    class of any shape), whatever the configuration. -/
-theorem C13_noop_identity_optimized (env : Env) (conf : Conf) (m : Member) (k : Klass) (n : Nat)
+    class of any shape, hints of any kind), whatever the configuration; nothing raises. -/
+theorem C13_noop_identity_optimized (env : Env) (conf : Conf) (m : Member) (k : Klass) (st : St)
     (h : env.optimized = true) :
-    beartype env conf m n = (m, n) ∧ beartypeClass env conf k n = (k, n) := by
+    beartype env conf m st = ⟨m, st, false⟩ ∧ beartypeClass env conf k st = ⟨k, st, false⟩ := by
   simp [beartype, beartypeClass, h]
 
 /-- **No-op cases are identities, whole classes.** If every function reachable through the members
     the class itself defines (at every nesting depth) is a no-op case — in particular for EVERY
-    class under strategy O0 — then decorating the class creates no wrapper at all: up to the class
-    markers, the `__no_type_check__` flags set by O0 and the oids of the rebuilt descriptor objects,
-    the class is unchanged (the same function objects under the same names in the same kinds). -/
-theorem C13_noop_identity_class (env : Env) (conf : Conf) (k : Klass) (n : Nat) (hwf : k.wf)
+    class under strategy O0 — then decorating the class creates no wrapper at all and raises
+    nothing: up to the class markers, the `__no_type_check__` flags set by O0 and the oids of the
+    rebuilt descriptor objects, the class is unchanged (the same function objects under the same
+    names in the same kinds). -/
+theorem C13_noop_identity_class (env : Env) (conf : Conf) (k : Klass) (st : St) (hwf : k.wf)
     (h : k.allNoop env conf = true) :
-    (decorClass env conf k n).1.erase = k.erase := by
-  rw [C13_class_eq_members env conf k n hwf]; exact specClass_noop env conf k n h
+    (decorClass env conf k st).val.erase = k.erase ∧ (decorClass env conf k st).raised = false := by
+  rw [C13_class_eq_members env conf k st hwf]; exact specClass_noop env conf k st h
 
 /-- … under strategy O0 the hypothesis holds for every class. -/
-theorem C13_noop_identity_O0 (env : Env) (conf : Conf) (k : Klass) (n : Nat) (hwf : k.wf)
+theorem C13_noop_identity_O0 (env : Env) (conf : Conf) (k : Klass) (st : St) (hwf : k.wf)
     (ho : conf.o0 = true) :
-    (decorClass env conf k n).1.erase = k.erase := by
-  apply C13_noop_identity_class env conf k n hwf
+    (decorClass env conf k st).val.erase = k.erase ∧ (decorClass env conf k st).raised = false := by
+  apply C13_noop_identity_class env conf k st hwf
   have hf : ∀ f : Func, f.noop env conf = true := by intro f; simp [Func.noop, ho]
   have hfo : ∀ f : Option Func, Func.noopOpt env conf f = true := by
     intro f; cases f <;> simp [Func.noopOpt, hf]
@@ -195,9 +312,9 @@ theorem C13_noop_identity_O0 (env : Env) (conf : Conf) (k : Klass) (n : Nat) (hw
   exact key.2.1 k
 
 /-- **An already decorated class is returned unchanged** (any configuration, any mode). -/
-theorem C13_noop_identity_decorated_class (env : Env) (conf : Conf) (k : Klass) (n : Nat)
-    (h : k.beartyped = true) : decorClass env conf k n = (k, n) :=
-  decorClass_of_beartyped env conf k n h
+theorem C13_noop_identity_decorated_class (env : Env) (conf : Conf) (k : Klass) (st : St)
+    (h : k.beartyped = true) : decorClass env conf k st = ⟨k, st, false⟩ :=
+  decorClass_of_beartyped env conf k st h
 
 /-! ### Non-vacuity: a concrete class exercising every branch
 
@@ -234,8 +351,10 @@ def exA : Klass := .mk 0 ["A"] false
   (.cons "inh" (.func (fn 30 "inh" .checked)) .nil)
 
 def envN : Env := ⟨false⟩
-def cDef : Conf := ⟨false⟩
-def cO0 : Conf := ⟨true⟩
+def cDef : Conf := ⟨false, false⟩
+def cO0 : Conf := ⟨true, false⟩
+def cWarn : Conf := ⟨false, true⟩
+def st100 : St := ⟨100, 0⟩
 
 /-- which functions under the class's own members carry the wrapper marker, by name, depth-first -/
 def markersOf : Members → List (String × Bool)
@@ -254,27 +373,86 @@ example : exA.wf := by
 
 /-- the hypotheses are satisfiable and the conclusion is not trivial: f, c, p (getter and setter),
     N.s and N.NN.g are wrapped, u is not, the referenced class AX is not entered -/
-example : markersOf (decorClass envN cDef exA 100).1.dict =
+example : markersOf (decorClass envN cDef exA st100).val.dict =
     [("f", true), ("u", false), ("c", true), ("p", true), ("p.setter", true),
      ("N", true), ("s", true), ("NN", true), ("g", true), ("Alias", false), ("ext", false)] := by
   decide
 
 /-- eight new objects: wrappers of f, c, p, p.setter, s, g and… the rebuilt classmethod, property,
-    staticmethod objects (6 + 3 = 9) -/
-example : (decorClass envN cDef exA 100).2 = 109 := by decide
+    staticmethod objects (6 + 3 = 9); no warning, no exception -/
+example : (decorClass envN cDef exA st100).st = ⟨109, 0⟩ ∧ (decorClass envN cDef exA st100).raised = false := by
+  decide
 
 /-- strategy O0: nothing is wrapped, only the three descriptor objects are rebuilt -/
-example : markersOf (decorClass envN cO0 exA 100).1.dict =
+example : markersOf (decorClass envN cO0 exA st100).val.dict =
     [("f", false), ("u", false), ("c", false), ("p", false), ("p.setter", false),
      ("N", true), ("s", false), ("NN", true), ("g", false), ("Alias", false), ("ext", false)] ∧
-    (decorClass envN cO0 exA 100).2 = 103 := by decide
+    (decorClass envN cO0 exA st100).st.next = 103 := by decide
 
 /-- `-O`: the identity -/
-example : (beartypeClass ⟨true⟩ cDef exA 100).2 = 100 := by decide
+example : (beartypeClass ⟨true⟩ cDef exA st100).st.next = 100 := by decide
 
 /-- the wrapper of `f` is a new object whose `__wrapped__` is `f` -/
-example : ((decorFunc envN cDef (fn 1 "f" .checked) 100).1.oid,
-           ((decorFunc envN cDef (fn 1 "f" .checked) 100).1.wrapped.map Func.oid)) = (100, some 1) := by decide
+example : ((decorFunc envN cDef (fn 1 "f" .checked) st100).val.oid,
+           ((decorFunc envN cDef (fn 1 "f" .checked) st100).val.wrapped.map Func.oid)) = (100, some 1) := by decide
+
+/-! A class with members that cannot be decorated:
+```
+class B:
+    def a(self, x: int): …
+    @classmethod      def cb(cls, x: NoReturn): …          # wrappee guarded on its own
+    @property         def pb(self) -> int: … ; @pb.setter def pb(self, v: NoReturn): …   # all-or-nothing
+    def bad(self, x: NoReturn): …
+    class M:
+        def g(self, x: int): … ; def mb(self, x: NoReturn): … ; def h(self, x: int): …
+    def z(self, x: int): …
+```
+-/
+def exM : Klass := .mk 50 ["B", "M"] false
+  (.cons "g" (.func (fn 51 "g" .checked))
+  (.cons "mb" (.func (fn 52 "mb" .failing))
+  (.cons "h" (.func (fn 53 "h" .checked)) .nil))) .nil
+def exB : Klass := .mk 40 ["B"] false
+  (.cons "a" (.func (fn 41 "a" .checked))
+  (.cons "cb" (.cmeth 42 (fn 43 "cb" .failing))
+  (.cons "pb" (.prop 44 "pdoc" (fn 45 "pb" .checked) (some (fn 46 "pb" .failing)) none)
+  (.cons "bad" (.func (fn 47 "bad" .failing))
+  (.cons "M" (.klass exM)
+  (.cons "z" (.func (fn 48 "z" .checked)) .nil)))))) .nil
+
+example : exB.wf := by
+  simp [Klass.wf, Members.wf, Member.wf, exB, exM, Members.names]
+
+/-- under the warning option: four warnings (cb, pb, bad, M.mb; none for the classes), every
+    decorable member wrapped — also those AFTER a failing one —, the getter of the half-bad property
+    NOT wrapped (all-or-nothing), both classes marked, nothing propagates -/
+example : markersOf (decorClass envN cWarn exB st100).val.dict =
+    [("a", true), ("cb", false), ("pb", false), ("pb.setter", false), ("bad", false),
+     ("M", true), ("g", true), ("mb", false), ("h", true), ("z", true)] ∧
+    (decorClass envN cWarn exB st100).st.warns = 4 ∧ (decorClass envN cWarn exB st100).raised = false ∧
+    (decorClass envN cWarn exB st100).val.beartyped = true := by decide
+
+/-- without it: the decoration raises at `cb` (the first failing member in dictionary order); `a`
+    is wrapped, nothing after `cb` is, neither class is marked, no warning -/
+example : markersOf (decorClass envN cDef exB st100).val.dict =
+    [("a", true), ("cb", false), ("pb", false), ("pb.setter", false), ("bad", false),
+     ("M", false), ("g", false), ("mb", false), ("h", false), ("z", false)] ∧
+    (decorClass envN cDef exB st100).st = ⟨101, 0⟩ ∧ (decorClass envN cDef exB st100).raised = true ∧
+    (decorClass envN cDef exB st100).val.beartyped = false := by decide
+
+/-- a nested class whose decoration raises is left half-decorated (g wrapped, h not) and the
+    exception ends the loop of the enclosing class as well -/
+example :
+    let k : Klass := .mk 60 ["B"] false (.cons "M" (.klass exM) (.cons "z" (.func (fn 48 "z" .checked)) .nil)) .nil
+    markersOf (decorClass envN cDef k st100).val.dict =
+      [("M", false), ("g", true), ("mb", false), ("h", false), ("z", false)] ∧
+    (decorClass envN cDef k st100).raised = true := by decide
+
+/-- hypotheses of `C13_failing_member_left_alone` / `C13_failing_member_as_if_absent` are satisfiable -/
+example : (Member.func (fn 47 "bad" .failing)).failsLeaf envN cWarn = true ∧
+    (Member.prop 44 "pdoc" (fn 45 "pb" .checked) (some (fn 46 "pb" .failing)) none).failsLeaf envN cWarn = true ∧
+    (Member.cmeth 42 (fn 43 "cb" .failing)).failsLeaf envN cWarn = false ∧
+    (Member.cmeth 42 (fn 43 "cb" .failing)).failsLeaf envN cDef = true := by decide
 end Examples
 
 end BearVerif.Decor
